@@ -100,6 +100,7 @@ def classify(sym, srcs):
         ok = writers <= {'register_allocator'}
         return ok, 'include/tins/pdu_allocator.h', ('user registry (std::map): subscripted / mutated only in register_allocator (registration API); the parse path uses find()/count() only' if ok
                                                     else 'registry written by ' + ', '.join(sorted(writers)))
+    sym = sym.replace('(anonymous namespace)::', '')     # an unnamed namespace is not a function signature
     fl = re.match(r'(.*)\((.*)\)(?: const)?::(\w+)$', sym)
     if fl:      # function-local static
         func = fl.group(1).split('::')[-1]
